@@ -96,7 +96,7 @@ impl Stage for Hostile {
         "hostile"
     }
     fn cases(&self, tier: Tier) -> u32 {
-        tier.pick(6000, 80_000)
+        tier.pick(15000, 600000)
     }
     fn watchdog_secs(&self, tier: Tier) -> u64 {
         tier.pick(600, 1800)
